@@ -139,6 +139,19 @@ def judge(r, kind, ivs, probes, cnt):
                          when=("same-items-other-order" if got[0] == "ok" and sorted(got[1]) == exp_items else "other")),
                     "list(ImmutIntervalMap(%r)) -> %r, expected %r" % (mapping, got, exp_items),
                     dict(rep, snippet=snippet(ivs, "print(list(m))   # expected %r" % (exp_items,))))
+    # the map is immutable: every iteration lists the same items (a second one, one started while another is
+    # under way, one after the look-ups below)
+    def again(label):
+        it = iter(m)
+        part = observe(lambda: list(itertools.islice(it, 1)))
+        got2 = observe(list, m)
+        cnt["ops"] += 2
+        if got2 != ("ok", exp_items) or part != ("ok", exp_items[:1]):
+            r.violation(dict(base, op="iter", kind="value-mismatch", when="repeated-iteration"),
+                        "%s of ImmutIntervalMap(%r): first item %r, then list(m) -> %r, expected %r" % (
+                            label, mapping, part, got2, exp_items),
+                        dict(rep, snippet=snippet(ivs, "list(m); print(list(m))   # expected %r both times" % (exp_items,))))
+    again("second iteration")
     for key in probes:
         exp = ref_lookup(ivs, key)
         want = ("ok", exp[0]) if exp else ("exc", "KeyError")
